@@ -45,6 +45,15 @@ type Sub struct {
 	// ParentSteps are payments in the parent between the sub-channel becoming final and its
 	// settlement into the parent.
 	ParentSteps []Step `json:"parent_payments_before_the_settlement,omitempty"`
+	// Nested is a sub-channel of the sub-channel (only when the sub-channel stays open): the whole
+	// tree is then settled through a dispute of the ledger channel.
+	Nested *Nested `json:"nested_sub_channel,omitempty"`
+}
+
+// Nested describes a sub-channel of the sub-channel.
+type Nested struct {
+	Init  [][]int64 `json:"initial_balances"`
+	Steps []Step    `json:"payments"`
 }
 
 // Scenario is one generated program.
@@ -118,6 +127,13 @@ func Generate(rng *rand.Rand) Scenario {
 		if sub.Close && rng.Intn(3) == 0 {
 			sub.ParentSteps = steps(1 + rng.Intn(2))
 		}
+		if !sub.Close && rng.Intn(3) == 0 {
+			ne := &Nested{Init: make([][]int64, sc.Assets), Steps: steps(rng.Intn(4))}
+			for a := range ne.Init {
+				ne.Init[a] = []int64{int64(rng.Intn(4)), int64(rng.Intn(4))}
+			}
+			sub.Nested = ne
+		}
 		sc.Sub = sub
 		if !sub.Close {
 			// a ledger channel with an open sub-channel cannot be closed cooperatively
@@ -138,6 +154,7 @@ type Run struct {
 	P        [2]*party.Party
 	Ch       [2]*client.Channel // ledger channel objects of A and B
 	SubCh    [2]*client.Channel
+	NestedCh [2]*client.Channel
 	Before   [2][]*big.Int // on-chain balances before opening, per asset
 	TimedOut bool
 	Failed   string // an operation failed in a way that makes the run undecidable
@@ -438,6 +455,35 @@ func (r *Run) subChannel() bool {
 		}
 	}
 	r.hook("after-sub-steps")
+	if sub.Nested != nil && !r.SkipRest {
+		ne := sub.Nested
+		cur := r.SubCh[0].State()
+		for a := range ne.Init {
+			for i := range ne.Init[a] {
+				if cur.Balances[a][i].Cmp(big.NewInt(ne.Init[a][i])) < 0 {
+					ne.Init[a][i] = cur.Balances[a][i].Int64()
+				}
+			}
+		}
+		nch, err := r.P[0].OpenSubChannel(r.SubCh[0], ne.Init, r.Sc.Dur, opts...)
+		if err != nil {
+			r.fail("opening the nested sub-channel", err)
+			return false
+		}
+		r.NestedCh[0] = r.P[0].AwaitChannel(nch.ID())
+		r.NestedCh[1] = r.P[1].AwaitChannel(nch.ID())
+		if r.NestedCh[0] == nil || r.NestedCh[1] == nil {
+			r.Failed = "the peer never registered the nested sub-channel"
+			return false
+		}
+		r.logf("nested sub-channel %x opened", nch.ID())
+		for _, st := range ne.Steps {
+			r.pay(r.NestedCh, st, false)
+			if r.Failed != "" {
+				return false
+			}
+		}
+	}
 	if !sub.Close || r.SkipRest {
 		return true
 	}
